@@ -295,6 +295,10 @@ impl Builder {
         match idx {
             Some(idx) => {
                 if idx < self.module.functions.len() {
+                    if self.selected_function != Some(idx) {
+                        // block indices are relative to the selected function
+                        self.selected_block = None;
+                    }
                     self.selected_function = Some(idx);
                     Ok(())
                 } else {
@@ -381,6 +385,7 @@ impl Builder {
             None,
             vec![],
         ));
+        self.selected_block = None;
         self.selected_function = None;
         Ok(())
     }
